@@ -1494,3 +1494,37 @@ def undissolved(w, fn, cfg=None, within=None):
       if callee is not None and callee.name not in KEEP_A and callee.qualname != fi.qualname:
         out.append(c)
   return out
+
+
+def is_empty_value(e):
+  """None, an empty display, or a constructor call without arguments (set(), OrderedDict(), ...)."""
+  if isinstance(e, ast.Constant) and e.value is None:
+    return True
+  if isinstance(e, (ast.List, ast.Tuple, ast.Set)) and not e.elts:
+    return True
+  if isinstance(e, ast.Dict) and not e.keys:
+    return True
+  return isinstance(e, ast.Call) and not e.args and not e.keywords and \
+      dotted(e.func) in ("set", "dict", "list", "OrderedDict", "collections.OrderedDict", "frozenset")
+
+
+def is_frame_reset(w, fi, target):
+  """The per-frame reset written in place (helper inlined into its caller): `target` (an attribute
+  store in function fi) is assigned an empty value, outside any loop, in a function that itself runs
+  update loops, and strictly before all of them or after all of them -- never between or inside."""
+  fn = w.fn_of(fi)
+  cfg = fn.cfg
+  stmts = [s for s in stmts_in(fi.node.body, ast.Assign) if any(t is target for t in s.targets)]
+  if len(stmts) != 1 or not is_empty_value(stmts[0].value):
+    return False
+  if innermost_loop(fi.node, stmts[0]) is not None:
+    return False
+  loops = fn.nodes_calling(lambda c, nm, f: nm == "self._update_loop")
+  if not loops:
+    return False
+  rs = nodes_for(cfg, stmts[0])
+  before = all(cfg.dominated_by(u, rs) for u in loops)
+  after = all(all(cfg.dominated_by(r, {u}) for u in loops) or
+              not (cfg.reach({r}) & loops) for r in rs) and \
+      not any(cfg.reach({r}) & loops for r in rs)
+  return before or after
